@@ -455,6 +455,22 @@ pub enum Expression {
 }
 
 impl Expression {
+    /// The expression underneath TypeScript-only wrappers (`x as T`, `<T>x`, `x!`).
+    ///
+    /// The wrappers have no run-time meaning, so code that looks at the *shape* of an
+    /// operand (is the callee a member access? is the `typeof` operand an identifier?)
+    /// must look at this instead of the expression itself.
+    pub fn without_type_wrappers(&self) -> &Expression {
+        let mut expr = self;
+        loop {
+            match expr {
+                Expression::TypeAssertion(ta) => expr = ta.expression.as_ref(),
+                Expression::NonNull(nn) => expr = nn.expression.as_ref(),
+                _ => return expr,
+            }
+        }
+    }
+
     pub fn span(&self) -> Span {
         match self {
             Expression::Literal(l) => l.span,
